@@ -3,8 +3,43 @@ from .. import expr as E
 from ..flow import ev_call, ev_return
 
 
+import re
+
+_CONV = re.compile(r"%(\*)?(\d+)?(hh|h|ll|l|j|z|t|L)?([diouxXcsfeEgGaAn\[p%])")
+_BITS = {"hh": 8, "h": 16, None: 32, "l": 64, "ll": 64, "j": 64, "z": 64, "t": 64}
+
+
+def scanf_int_convs(fmt):
+    """[(arg position among the stored conversions, text, width or None, bits, signed)] of the integer conversions of a scanf format"""
+    out, pos = [], 0
+    for m in _CONV.finditer(fmt):
+        star, width, mod, conv = m.groups()
+        if conv == "%":
+            continue
+        if conv == "[":
+            pass
+        if not star:
+            if conv in "diouxX":
+                out.append((pos, m.group(0), int(width) if width else None, _BITS.get(mod, 32), conv in "di"))
+            pos += 1
+    return out
+
+
+def max_safe_width(bits, signed, conv):
+    """largest field width for which no input can overflow the destination (decimal; the sign consumes one character of the width)"""
+    lim = (1 << (bits - 1)) - 1 if signed else (1 << bits) - 1
+    if conv in "xX":
+        return bits // 4
+    if conv == "o":
+        return bits // 3
+    w = 0
+    while 10 ** (w + 1) - 1 <= lim:
+        w += 1
+    return w
+
+
 def run(ck):
-    facts = ck.facts(["src/ftp/Parsing.cc"])
+    facts = ck.facts(["src/ftp/Parsing.cc", "src/clients/FtpClient.cc"])
     set_port = ev_call("Ip::Address::port", nargs=1)
 
     ck.rule("F1 GINT(Ftp::ParseProtoIpPort): at addr.port(port) the configuration-independent guards give port in [1,65535]; "
@@ -41,4 +76,64 @@ def run(ck):
         ck.ok("F2.port-shape", ip.where(), "port = (p1 << 8) + p2")
     else:
         ck.violation("F2.port-shape", "F2|ParseIpPort|port-shape", ip.where(), "port is no longer (p1 << 8) + p2: %s" % [E.key(t) for t in d])
+    ck.rule("F2b GINT(Ftp::ParseIpPort): `return true` only with all six components h1..h4, p1, p2 within [0,255] established (also when the address itself is "
+            "replaced by forceIp: the statement says an address is yielded only if *every* component is in range)")
+    ret_true = ev_return(E.m_const(1))
+    for v in ("h1", "h2", "h3", "h4"):
+        ck.require_interval("F2b.address-octets", fl, ret_true, E.m_is_ref(v), 0, 255, "return true (%s)" % v,
+                            why="(227 replies such as (999,0,0,1,4,0) are accepted when the IP is forced to the control connection's peer)")
+
+    ck.rule("F3 LOSSY(scanf): in the FTP address parsers (Ftp::ParseIpPort, Ftp::Client::handleEpsvReply) every integer conversion of sscanf() has a field width "
+            "small enough that no input can overflow the destination type (C11 7.21.6.2p10: otherwise the behaviour is undefined; glibc silently wraps: "
+            "`%hu` turns 70000 into 4464 and `%d` turns 4294967296 into 0 *before* any range check) and the destination's width agrees with the length modifier")
+    nconv = 0
+    for fname in ("Ftp::ParseIpPort", "Ftp::Client::handleEpsvReply"):
+        f = facts.fn(fname)
+        for b in f.blocks.values():
+            for ev in b["ev"]:
+                if ev.get("e") != "call":
+                    continue
+                x = E.strip(ev["x"])
+                if x.get("f") != "sscanf":
+                    continue
+                fmt = E.strip(x["a"][1])
+                ck.need(fmt.get("k") == "str", "C40: sscanf format in %s is not a literal" % fname)
+                for pos, text, width, bits, signed in scanf_int_convs(fmt["v"]):
+                    nconv += 1
+                    dest = x["a"][2 + pos] if len(x["a"]) > 2 + pos else None
+                    diw = abs(E.strip(dest).get("e", {}).get("iw", 0)) if dest and E.strip(dest).get("k") == "un" else 0
+                    safe = max_safe_width(bits, signed, text[-1])
+                    where = f.where(ev["l"])
+                    if diw and diw != bits:
+                        ck.violation("F3.scanf-exact", "F3|%s|%s|dest-width" % (fname, text), where, "%s: conversion %s stores %d bits into a %d-bit object" % (fname, text, bits, diw))
+                    elif width is not None and width <= safe:
+                        ck.ok("F3.scanf-exact", where, "%s: %s cannot overflow its %d-bit destination" % (fname, text, bits))
+                    else:
+                        ck.violation("F3.scanf-exact", "F3|%s|arg%d|unbounded-conversion" % (fname, pos), where,
+                                     "%s: sscanf conversion %s into a %d-bit %s object has %s: an out-of-range component overflows during the conversion "
+                                     "(undefined behaviour; glibc wraps modulo 2^%d), so the later range checks see an in-range value"
+                                     % (fname, text, bits, "signed" if signed else "unsigned", "no field width" if width is None else "field width %d > %d" % (width, safe), bits))
+    ck.need(nconv >= 7, "C40: expected >= 7 integer sscanf conversions in the FTP address parsers, found %d" % nconv)
+
+    ck.rule("F4 GINT(Ftp::Client::handleEpsvReply): at remoteAddr.port(port) the guards (and the declared type of the local) give port in [1,65535]; "
+            "all sscanf fields were converted and the three delimiters agree")
+    ep = facts.fn("Ftp::Client::handleEpsvReply")
+    fl = ck.flow(ep)
+    pdecl = [ev for b in ep.blocks.values() for ev in b["ev"] if ev.get("e") == "decl" and ev.get("d") == "port"]
+    ck.need(len(pdecl) == 1, "C40: local 'port' not found in handleEpsvReply")
+    piw = pdecl[0].get("iw") or 0
+    for st in ck.sites(fl, set_port, "remoteAddr.port(port)", 1):
+        x = E.strip(st.ev["x"])
+        ck.need(E.m_is_ref("port")(x["a"][0]), "C40: handleEpsvReply no longer passes the local 'port' to Ip::Address::port()")
+        lo, hi = ck.interval(st, E.m_is_ref("port"))
+        if piw > 0:     # unsigned type bounds
+            lo = 0 if lo is None else max(lo, 0)
+            hi = (1 << piw) - 1 if hi is None else min(hi, (1 << piw) - 1)
+            if lo == 0 and st.has(E.m_is_ref("port"), True):       # `0 == port` is normalised to the falsity of `port`
+                lo = 1
+        if lo is not None and lo >= 1 and hi is not None and hi <= 65535:
+            ck.ok("F4.epsv-port-range", st.where(), "handleEpsvReply: port within [%s, %s]" % (lo, hi))
+        else:
+            ck.violation("F4.epsv-port-range", "F4|handleEpsvReply|port-range", st.where(), "handleEpsvReply: guards only give port in [%s, %s], required [1, 65535]" % (lo, hi), fl.witness(st))
+
     ck.assume("directory-listing parsing (ftpListParseParts) memory safety is not decided by this module")
